@@ -2,6 +2,7 @@ package c11
 
 import (
 	"fmt"
+	"strings"
 
 	"github.com/zerx-lab/wordZero/pkg/document"
 
@@ -161,6 +162,9 @@ func (d *derived) step(res *kit.Result, i int, st *dstats) bool {
 	}
 	st.shape = append(st.shape, s)
 	res.Label("text:" + op.Cls)
+	if op.Fmt != nil && strings.HasPrefix(op.Fmt.Color, "#") {
+		res.Label("formatted:colour-in-css-spelling")
+	}
 	return true
 }
 
